@@ -39,22 +39,26 @@ def to_matrix_indexing(axis: Union[str, int], indexing: str) -> str:
         str: converted axis in matrix indexing sense.
 
     """
-    assert indexing in "xy", "xyz"
+    assert indexing in ["x", "xy", "xyz"]
 
     # Convert numeric axis description
     if isinstance(axis, int):
         axis = "xyz"[axis]
 
-    if indexing == "xy":
+    # NOTE: Consistent with interpret_indexing.
+    if indexing == "x":
+        if axis == "x":
+            return "i"
+    elif indexing == "xy":
         if axis == "x":
             return "j"
         elif axis == "y":
             return "i"
     elif indexing == "xyz":
         if axis == "x":
-            return "k"
-        elif axis == "y":
             return "j"
+        elif axis == "y":
+            return "k"
         elif axis == "z":
             return "i"
 
@@ -75,7 +79,11 @@ def to_cartesian_indexing(axis: Union[str, int], indexing: str) -> str:
     if isinstance(axis, int):
         axis = "ijk"[axis]
 
-    if indexing == "ij":
+    # NOTE: Consistent with interpret_indexing.
+    if indexing == "i":
+        if axis == "i":
+            return "x"
+    elif indexing == "ij":
         if axis == "i":
             return "y"
         elif axis == "j":
@@ -84,9 +92,9 @@ def to_cartesian_indexing(axis: Union[str, int], indexing: str) -> str:
         if axis == "i":
             return "z"
         elif axis == "j":
-            return "y"
-        elif axis == "k":
             return "x"
+        elif axis == "k":
+            return "y"
 
     raise ValueError
 
@@ -225,26 +233,34 @@ def matrixToCartesianIndexing(img: np.ndarray, dim: int = 2) -> np.ndarray:
     return img
 
 
-def cartesianToMatrixIndexing(img: np.ndarray) -> np.ndarray:
+def cartesianToMatrixIndexing(img: np.ndarray, dim: int = 2) -> np.ndarray:
     """
     Reordering data indexing, converting from (x,y) to (row,col) indexing.
 
     Inverse to matrixToCartesianIndexing.
 
-    NOTE: Assumes 2d images.
-
     Arguments:
         np.ndarray: image array with Cartesian indexing
+        dim (int): dimension of the image, default is 2
 
     Returns:
         np.ndarray: image array with matrix indexing
     """
-    # Two operations are require: Swapping axis and flipping the vertical axis.
-
-    # Flip the orientation of the second axis, such that later row=0 is located at the top.
-    img = np.flip(img, 1)
-
-    # Exchange first and second component, to change from (x,y) to (row,col) format.
-    img = np.swapaxes(img, 0, 1)
+    if dim == 1:
+        pass
+    elif dim == 2:
+        # Two operations are require: Swapping axis and flipping the vertical axis.
+        # Flip the orientation of the second axis, such that later row=0 is located at the top.
+        img = np.flip(img, 1)
+        # Exchange first and second component, to change from (x,y) to (row,col) format.
+        img = np.swapaxes(img, 0, 1)
+    elif dim == 3:
+        # Revert the operations of matrixToCartesianIndexing in reverse order.
+        img = np.flip(img, 2)
+        img = np.flip(img, 1)
+        img = np.swapaxes(img, 0, 1)
+        img = np.swapaxes(img, 0, 2)
+    else:
+        raise ValueError("Only 1d, 2d, and 3d images are supported.")
 
     return img
